@@ -263,6 +263,7 @@ if TYPE_CHECKING:
     from tealer.teal.teal import Teal
     from tealer.teal.functions import Function
     from tealer.teal.basic_blocks import BasicBlock
+    from tealer.teal.subroutine import Subroutine
     from tealer.teal.instructions.instructions import Instruction
 
 
@@ -712,10 +713,26 @@ class DataflowTransactionContext(ABC):  # pylint: disable=too-few-public-methods
             and len(block.called_subroutine.retsub_blocks) != 0
         ):
             # this block is the `callsub block` and `block.sub_return_point` is the block that will be executed after subroutine.
-            livein_information = self._intersection(
-                key, livein_information, liveout[block.sub_return_point]
+            # The execution can also end successfully inside the subroutine (`int 1; return`), without returning.
+            ends_in_subroutine = self._null_set(key)
+            for leaf_block in self._leaf_blocks_of_subroutine(block.called_subroutine):
+                ends_in_subroutine = self._union(key, ends_in_subroutine, liveout[leaf_block])
+            livein_information = self._union(
+                key,
+                self._intersection(key, livein_information, liveout[block.sub_return_point]),
+                self._intersection(key, livein_information, ends_in_subroutine),
             )
         return livein_information
+
+    @staticmethod
+    def _leaf_blocks_of_subroutine(subroutine: "Subroutine") -> List["BasicBlock"]:
+        """Return blocks of the subroutine, and of subroutines called by it, at which the execution of the contract ends."""
+        subroutines: List["Subroutine"] = [subroutine]
+        for sub in subroutines:
+            for called_sub in sub.called_subroutines:
+                if called_sub not in subroutines:
+                    subroutines.append(called_sub)
+        return [bi for sub in subroutines for bi in sub.blocks if leaf_block_global(bi)]
 
     def _merge_information_backward(
         self,
